@@ -5,7 +5,7 @@
    sql/types/conversion.go CompareNulls (which returns +1 for (NULL, non-NULL)). *)
 From Coq Require Import ZArith Bool List.
 Import ListNotations.
-From GMS Require Import Codec.C25Arith Codec.C27Convert.
+From GMS Require Import Codec.C25Arith Codec.C27Convert Codec.C27Enum.
 Open Scope Z_scope.
 
 (* temporal / string operands *)
@@ -15,12 +15,14 @@ Inductive tval :=
 | TYearI (z : Z)                 (* an integer given to YEAR *)
 | TYearS (z : Z)                 (* a 1-, 2- or 4-digit string given to YEAR *)
 | TSpan (us : Z)                 (* a Timespan, microseconds *)
+| TNum (v : value)               (* a number given to ENUM / SET / BIT *)
 | TStr (bs : list Z).            (* a string, as bytes *)
 
 Inductive cval := CNull | CV (v : value) | CX (t : tval).
 Inductive ctype :=
 | CInt (t : ity) | CDec (s : Z) (col : bool)
 | CDate | CDatetime (p : Z) | CTimestamp (p : Z) | CYear | CTime
+| CEnum (n : Z) | CSet (n : Z) | CBit (w : Z)
 | CBin.                          (* VARBINARY, and VARCHAR under utf8mb4_bin on valid UTF-8: byte order *)
 
 Definition sgn_cmp (a b : Z) : Z := match a ?= b with Lt => -1 | Eq => 0 | Gt => 1 end.
@@ -70,6 +72,9 @@ Definition tkey (t : ctype) (v : tval) : Z :=
   | CYear, TYearI z => year_of_int z
   | CYear, TYearS z => if z =? 0 then 2000 else year_of_int z
   | CTime, TSpan us => us
+  | CEnum n, TNum v => key_enum n v
+  | CSet n, TNum v => key_set n v
+  | CBit w, TNum v => key_bit w v
   | _, _ => 0
   end.
 
